@@ -145,3 +145,28 @@ def prebuild(configs=("A", "B", "C", "D", "E")):
 
 if __name__ == "__main__":
     prebuild(sys.argv[1:] or ("A", "B", "C", "D", "E"))
+
+
+def extract_crate(crate_dir, tag, fresh=True):
+    """Run the driver over a stand-alone witness crate (its own workspace root). Returns facts dir."""
+    out_dir = os.path.join(CACHE, "facts", f"W-{tag}")
+    if os.path.isdir(out_dir):
+        shutil.rmtree(out_dir)
+    os.makedirs(out_dir)
+    tdir = os.path.join(BUILD, "W-" + tag.split("-")[0])
+    os.makedirs(tdir, exist_ok=True)
+    fp = os.path.join(tdir, "debug", ".fingerprint")
+    if os.path.isdir(fp):
+        for d in os.listdir(fp):
+            if d.startswith("hv_"):
+                shutil.rmtree(os.path.join(fp, d), ignore_errors=True)
+    t0 = time.time()
+    p = subprocess.run(["cargo", "+nightly", "check", "--offline"], cwd=crate_dir, env=_env(out_dir, tdir),
+                       stdout=subprocess.PIPE, stderr=subprocess.STDOUT, text=True)
+    if p.returncode != 0:
+        sys.stderr.write(p.stdout[-6000:])
+        raise RuntimeError(f"witness crate {crate_dir} does not compile (cargo exit {p.returncode})")
+    files = [f for f in os.listdir(out_dir) if f.endswith(".json")]
+    if not files:
+        raise RuntimeError(f"driver wrote no facts for witness crate {crate_dir} (fail closed)")
+    return out_dir, round(time.time() - t0, 2)
